@@ -232,7 +232,8 @@ def run(tier, report):
     folder = core.workdir("c16")
     try:
         first = None
-        for name, cap in (("cells", None), ("pairs", None), ("shapes", 5000 if tier == "quick" else None)):
+        for name, cap in (("cells", None), ("pairs", None), ("shapes", 5000 if tier == "quick" else None)) + (
+                () if tier == "quick" else (("sweep", None),)):
             result = core.tlc("MCExcel", "Excel_%s.cfg" % name, timeout=3000)
             core.require_coverage(result, ["AddRow", "Start", "ReadRow", "Finish"], "Excel/" + name)
             report.add_tlc("Excel %s" % name, result)
